@@ -84,9 +84,22 @@ def _checker_validation(pid):
     vs = [v for v in VARIANTS if pid in (v.get("props") or [v.get("prop")])]
     # seeded changes: the property-breaking ones filed under this property; every behaviour-preserving refactoring, run against
     # THIS property's check only (the whole corpus against all properties is `./check --selftest`)
-    for v in selftest.load_seeded():
-        if pid in v["props"]:
-            vs.append(dict(v, props=[pid]) if (v.get("expect") is None or v.get("kind") == "benign") else v)
+    seeded = selftest.load_seeded()
+    is_benign = lambda v: v.get("expect") is None or v.get("kind") == "benign"
+    own = lambda v: v["id"].split("/")[-1].startswith(pid)
+    for v in seeded:
+        if pid not in v["props"]:
+            continue
+        if is_benign(v):
+            if own(v):
+                vs.append(dict(v, props=[pid]))     # behaviour-preserving changes written around this property
+        else:
+            vs.append(v)
+    # ... plus a fixed sample of the behaviour-preserving changes written around the other properties (every 6th, offset by the
+    # property number).  The whole corpus against every property is `./check --selftest` (tools/precommit.sh, about half an hour).
+    off = int(pid[1:]) % 6
+    others = sorted([v for v in seeded if is_benign(v) and not own(v) and pid in v["props"]], key=lambda v: v["id"])
+    vs += [dict(v, props=[pid]) for i, v in enumerate(others) if i % 6 == off]
     os.environ["SA_NO_SELFVALIDATION"] = "1"
     with ThreadPoolExecutor(max_workers=16) as ex:
         res = list(ex.map(selftest.run_variant, vs))
